@@ -11,6 +11,7 @@ import (
 	"regexp"
 	"runtime"
 	"sort"
+	"strconv"
 	"strings"
 	"sync"
 	"syscall"
@@ -32,6 +33,11 @@ type Prop struct {
 	MinStats func(tier string) map[string]int64
 	// WatchdogSec is the generous wall-clock limit per child (inconclusive when it fires).
 	WatchdogSec func(tier string) int
+	// CallCPUSec bounds the CPU time (user+system of the child, all threads) one journalled entry may
+	// consume: a call into poly that is still in flight after that much work never returns as far as this
+	// monitor can wait (bounded-progress restatement of "returns"). 0 = 120 (quick) / 600 (thorough).
+	// CPU seconds, not wall-clock seconds: the bound does not move with the load on the machine.
+	CallCPUSec func(tier string) int
 	// ChildProcs limits how many children run at once (0 = NumCPU).
 	ChildProcs int
 	// MemCapMiB: the parent polls the resident memory of every child (/proc/<pid>/statm) and kills a child
@@ -83,17 +89,19 @@ func loadFindings(path string) []finding {
 }
 
 type childResult struct {
-	shard    int
-	sum      *Summary
-	watchdog bool
-	exitErr  string
-	logTail  string
-	jCase    string
-	jInput   string
-	jFlight  bool
-	raceLogs []string
-	memCap   bool
-	peakRSS  int64
+	shard      int
+	sum        *Summary
+	watchdog   bool
+	cpuBudget  bool  // an entry in flight consumed more than its CPU budget
+	cpuSpentMs int64 // CPU milliseconds observed on that entry (lower bound)
+	exitErr    string
+	logTail    string
+	jCase      string
+	jInput     string
+	jFlight    bool
+	raceLogs   []string
+	memCap     bool
+	peakRSS    int64
 }
 
 // RaceReport is one de-duplicated data race report.
@@ -361,7 +369,13 @@ func Check(p *Prop, o Options) int {
 				continue
 			}
 			died++
-			if r.jFlight && r.memCap {
+			if r.cpuBudget && r.jFlight {
+				nviol++
+				viols = append(viols, Violation{Case: r.jCase,
+					Msg: fmt.Sprintf("this call into poly did not return within its CPU budget: more than %.0f CPU-seconds consumed while it was in flight (budget %d; CPU time of the monitored process, not wall-clock time); journalled call: %s; log tail:\n%s",
+						float64(r.cpuSpentMs)/1000, callCPUSec(p, o.Tier), clipStr(r.jInput, 600), r.logTail),
+					Replay: map[string]any{"journal_input": r.jInput}})
+			} else if r.jFlight && r.memCap {
 				nviol++
 				viols = append(viols, Violation{Case: r.jCase,
 					Msg:    fmt.Sprintf("the monitored process passed the resident-memory cap of %d MiB during this call into poly (resident %d MiB when it was stopped); journalled call: %s", p.MemCapMiB, r.peakRSS>>20, clipStr(r.jInput, 600)),
@@ -541,6 +555,7 @@ func Check(p *Prop, o Options) int {
 			"race_detector":           p.Race,
 			"peak_child_resident_mib": peakRSS >> 20,
 			"child_resident_cap_mib":  p.MemCapMiB,
+			"cpu_budget_seconds_per_journalled_entry": callCPUSec(p, o.Tier),
 			"race_report_blocks":      raceBlocks,
 			"race_reports_distinct":   len(raceList),
 			"verdict":                 []string{"held on what was observed", "violated", "inconclusive"}[exit],
@@ -624,6 +639,41 @@ func sanitize(s string) string {
 	return out
 }
 
+func callCPUSec(p *Prop, tier string) int {
+	if p.CallCPUSec != nil {
+		if n := p.CallCPUSec(tier); n > 0 {
+			return n
+		}
+	}
+	if tier == "thorough" {
+		return 600
+	}
+	return 120
+}
+
+// procCPUms is the CPU time (user+system, all threads) of process pid in milliseconds, -1 if unreadable.
+func procCPUms(pid int) int64 {
+	b, err := os.ReadFile(fmt.Sprintf("/proc/%d/stat", pid))
+	if err != nil {
+		return -1
+	}
+	s := string(b)
+	i := strings.LastIndexByte(s, ')') // the command name may contain blanks and parentheses
+	if i < 0 {
+		return -1
+	}
+	f := strings.Fields(s[i+1:])
+	if len(f) < 13 {
+		return -1
+	}
+	ut, e1 := strconv.ParseInt(f[11], 10, 64) // fields 14 and 15 of the line, in clock ticks (100 per second on Linux)
+	st, e2 := strconv.ParseInt(f[12], 10, 64)
+	if e1 != nil || e2 != nil {
+		return -1
+	}
+	return (ut + st) * 10
+}
+
 func runChild(p *Prop, o Options, work string, shard, nshards, wdSec int) childResult {
 	res := childResult{shard: shard}
 	logPath := filepath.Join(work, fmt.Sprintf("log-%d", shard))
@@ -656,6 +706,12 @@ func runChild(p *Prop, o Options, work string, shard, nshards, wdSec int) childR
 	poll := time.NewTicker(50 * time.Millisecond)
 	defer poll.Stop()
 	statm := fmt.Sprintf("/proc/%d/statm", cmd.Process.Pid)
+	cpuTick := time.NewTicker(time.Second)
+	defer cpuTick.Stop()
+	journalPath := filepath.Join(work, fmt.Sprintf("journal-%d", shard))
+	cpuBudgetSec := callCPUSec(p, o.Tier)
+	var lastSeq uint32
+	var cpuAtSeq int64
 wait:
 	for {
 		select {
@@ -676,6 +732,25 @@ wait:
 						break wait
 					}
 				}
+			}
+		case <-cpuTick.C:
+			seq := JournalSeq(journalPath)
+			cpu := procCPUms(cmd.Process.Pid)
+			if seq == 0 || seq != lastSeq || cpu < 0 {
+				lastSeq, cpuAtSeq = seq, cpu
+				break
+			}
+			if spent := cpu - cpuAtSeq; spent > int64(cpuBudgetSec)*1000 {
+				res.cpuBudget, res.cpuSpentMs = true, spent
+				res.jCase, res.jInput, res.jFlight = ReadJournal(journalPath)
+				syscall.Kill(-cmd.Process.Pid, syscall.SIGQUIT) // goroutine dump into the child's log
+				select {
+				case err = <-done:
+				case <-time.After(10 * time.Second):
+					syscall.Kill(-cmd.Process.Pid, syscall.SIGKILL)
+					err = <-done
+				}
+				break wait
 			}
 		case <-deadline:
 			res.watchdog = true
